@@ -39,7 +39,10 @@ func isInitFn(a *An, f *ssa.Function) bool {
 	return true
 }
 
-func (a *An) globalEffects(rule string) {
+func (a *An) globalEffects(rule string) { a.globalEffectsOn(rule, nil, 200) }
+
+// globalEffectsOn: the same scan restricted to a set of functions (nil: all).
+func (a *An) globalEffectsOn(rule string, only map[*ssa.Function]bool, floor int) {
 	R := a.R
 	allowed := map[string]string{
 		"global:notifiedLockFailure": "sync.Once (synchronised by the library), used to print one warning",
@@ -56,7 +59,7 @@ func (a *An) globalEffects(rule string) {
 	seen := map[string]bool{}
 	nfn := 0
 	for _, f := range a.C.FuncSeq {
-		if f.Blocks == nil || isInitFn(a, f) {
+		if f.Blocks == nil || isInitFn(a, f) || (only != nil && !only[f]) {
 			continue
 		}
 		nfn++
@@ -84,6 +87,19 @@ func (a *An) globalEffects(rule string) {
 					if direct {
 						effs = a.E.InstrEffects(in)
 					} else {
+						// memory reachable from a package-level variable handed to a library-internal function that writes
+						// through its argument (a method of a package-level cache, say): not visible inside the callee
+						own := map[string]bool{}
+						for _, g := range a.C.Callees(x) {
+							for _, ce := range a.E.Of(a.C.unwrap(g)) {
+								own[ce.Path] = true
+							}
+						}
+						for _, ef := range a.E.InstrEffectsAll(in) {
+							if ef.Kind != EffAppend && strings.HasPrefix(ef.Path, "global:") && !own[ef.Path] {
+								effs = append(effs, ef)
+							}
+						}
 						// a package-level slice handed to a library-internal function that appends to its argument
 						for _, ef := range a.E.InstrEffectsAll(in) {
 							if ef.Kind == EffAppend && strings.HasPrefix(ef.Path, "global:") {
@@ -139,7 +155,7 @@ func (a *An) globalEffects(rule string) {
 			R.Ok(rule, "fn|"+fn, "no direct write to package-level state", a.C.Pos(f.Pos()))
 		}
 	}
-	R.Floor(rule, 200)
+	R.Floor(rule, floor)
 }
 
 // globalInitSafe: is the package-level slice provably len == cap after initialisation?
